@@ -37,6 +37,9 @@ TICK_ALPHA = [Fr(-1), Fr(0), Fr(1, 2), Fr(2)]
 RANGE_POS = [Fr(-2), Fr(-1), Fr(-1, 2), Fr(0), Fr(1, 4), Fr(1, 2), Fr(5, 4), Fr(2), Fr(3)]
 SET_POS = [Fr(-1), Fr(-1, 2), Fr(0), Fr(1, 2), Fr(1), Fr(3, 2), Fr(2), Fr(5, 2), Fr(3), Fr(4)]
 FAR = 1 << 17
+# non-dyadic parameters: only the round trip through the library's own position_at is asserted there
+NONDYADIC_IV = [0.1, 0.3, 0.7, 0.001, 1.0 / 3.0, 2.5e-5]
+NONDYADIC_OFF = [None, 0.1, -0.7, 12.3]
 
 
 def BOUNDS(tier):
@@ -50,6 +53,9 @@ def cases(tier):
     for iv in INTERVALS:
         for off in OFFSETS:
             yield {"k": "sampled", "iv": str(iv), "off": None if off is None else str(off), "kr": krange}
+    for iv in NONDYADIC_IV:
+        for off in NONDYADIC_OFF:
+            yield {"k": "roundtrip", "iv": iv, "off": off, "n": 300 if tier == "thorough" else 120}
     for n in range(0, 5):
         for ticks in itertools.combinations_with_replacement(TICK_ALPHA, n):
             for src in ("stored", "linked"):
@@ -153,6 +159,8 @@ def check_index(r, kind, dim, pfloat, mname, mode, exp, cls, ctx, **kw):
 def check_range(r, kind, dim, a, b, sname, smode, exp, cls, ctx):
     r.evals += 1
     sm = "any" if cls == "far" else sname
+    a = a if isinstance(a, float) else float(a)
+    b = b if isinstance(b, float) else float(b)
     try:
         got = dim.range_indices(float(a), float(b), smode)
         st = "ok"
@@ -366,7 +374,38 @@ def run_set(case, r):
         s.close()
 
 
+def run_roundtrip(case, r):
+    """converting the position of sample i back yields i - for intervals/offsets that are not exactly
+    representable (the position is the one the library itself reports for sample i)"""
+    iv, off, n = case["iv"], case["off"], case["n"]
+    s = Session()
+    try:
+        da = s.b.create_data_array("d", "t", data=np.arange(8.0))
+        dim = da.append_sampled_dimension(iv)
+        if off is not None:
+            dim.offset = off
+        ctx = "interval=%r offset=%r" % (iv, off)
+        pos = [dim.position_at(i) for i in range(n)]
+        for i in range(n):
+            r.nontrivial += 1
+            for mname, mode in MODES:
+                exp = i if mname != "less" else (i - 1 if i > 0 else None)
+                check_index(r, "sampled", dim, pos[i], mname, mode, exp, "roundtrip-nondyadic", ctx)
+        for i, j in [(a, b) for a in range(0, n, 7) for b in range(a, min(n, a + 40), 9)]:
+            r.nontrivial += 1
+            check_range(r, "sampled", dim, pos[i], pos[j], "incl", SliceMode.Inclusive, (i, j), "roundtrip-nondyadic", ctx)
+            check_range(r, "sampled", dim, pos[i], pos[j], "excl", SliceMode.Exclusive, (i, j - 1) if j > i else None,
+                        "roundtrip-nondyadic", ctx)
+        ax = dim.axis(n)
+        r.evals += 1
+        if [float(x) for x in ax] != [float(p_) for p_ in pos] and not np.allclose(ax, pos, rtol=1e-12, atol=0):
+            r.viol("C07|sampled.axis|roundtrip-nondyadic|differs-from-position_at",
+                   "axis(%d) differs from position_at (%s)" % (n, ctx), {})
+    finally:
+        s.close()
+
+
 def run_case(case):
     r = R()
-    {"sampled": run_sampled, "range": run_range, "set": run_set}[case["k"]](case, r)
+    {"sampled": run_sampled, "range": run_range, "set": run_set, "roundtrip": run_roundtrip}[case["k"]](case, r)
     return r
